@@ -86,6 +86,67 @@ use std::path::{Path, PathBuf};
 use std::sync::Arc;
 use std::time::{Duration, Instant};
 
+/// Set by the panic hook when a tx-pool service task of the REAL code panics with "invalid key" inside PoolMap's
+/// multi-index map (tx-pool/src/component/pool_map.rs; reached through score_sorted_iter_by_status / get_proposals /
+/// the selector after reorganisation histories that re-add parents behind pooled children — the defect eng-C12
+/// found in round 6, listed class `pool-map-invalid-key-panic`). The request that hit it is answered with "receiving
+/// on a closed channel", the block-assembler task may be dead: the node hands out no (fresh) template any more. The
+/// panic is reported ONCE per case as an oracle failure of exactly that class; the rest of the case is counted, not
+/// judged; the next case starts a fresh node.
+static POOL_MAP_PANIC: std::sync::atomic::AtomicBool = std::sync::atomic::AtomicBool::new(false);
+
+/// Set by the panic hook when `TxSelector::txs_to_commit` itself panics: its temporary `modified_entries`
+/// multi-index map (tx-pool/src/component/tx_selector.rs:11, `#[derive(MultiIndexMap)] struct ModifiedTx`) fails in
+/// `remove_by_id` with "Internal invariants broken, unable to find element in index … despite being present in
+/// another". Seen (thorough, seed 1, case 140; seeded/C13/findings-round6/) on a pool whose maintained ancestors_*
+/// are stale (C11's F3): `sub_ancestor_weight` then saturates and the score keys of modified entries stop being a
+/// consistent order. In production the same call is `package_txs` in update_full / update_transactions: the task that
+/// runs it dies (block-assembler loop or the reorg handler). NEW class, not yet listed: counted, not failing
+/// (`selector-index-panic-…-seen`); the rest of the case is counted, not judged; the next case starts a fresh node.
+static SELECTOR_PANIC: std::sync::atomic::AtomicBool = std::sync::atomic::AtomicBool::new(false);
+
+fn pool_map_panicked() -> bool {
+    POOL_MAP_PANIC.load(std::sync::atomic::Ordering::SeqCst) || SELECTOR_PANIC.load(std::sync::atomic::Ordering::SeqCst)
+}
+
+fn install_panic_watch() {
+    let prev = std::panic::take_hook();
+    std::panic::set_hook(Box::new(move |info| {
+        let at_pool_map = info.location().map_or(false, |l| l.file().ends_with("tx-pool/src/component/pool_map.rs"));
+        let msg = info.payload().downcast_ref::<&str>().map(|s| s.to_string()).or_else(|| info.payload().downcast_ref::<String>().cloned()).unwrap_or_default();
+        if at_pool_map && msg.contains("invalid key") {
+            POOL_MAP_PANIC.store(true, std::sync::atomic::Ordering::SeqCst);
+        }
+        let at_selector = info.location().map_or(false, |l| l.file().ends_with("tx-pool/src/component/tx_selector.rs"));
+        if at_selector && msg.contains("Internal invariants broken") {
+            SELECTOR_PANIC.store(true, std::sync::atomic::Ordering::SeqCst);
+        }
+        prev(info);
+    }));
+}
+
+/// the panic itself is the reported event (listed class pool-map-invalid-key-panic), once per case
+fn report_pool_map_panic(w: &mut World, out: &mut Out) {
+    if SELECTOR_PANIC.load(std::sync::atomic::Ordering::SeqCst) && !POOL_MAP_PANIC.load(std::sync::atomic::Ordering::SeqCst) && !w.panic_reported {
+        w.panic_reported = true;
+        // new class, counted until the coordinator lists it (see SELECTOR_PANIC)
+        if pool_aggregates_stale(w) || w.stale() {
+            out.count("selector-index-panic-stale-aggregates-seen");
+        } else {
+            out.count("selector-index-panic-seen");
+        }
+        if std::env::var("C13_REPORT_SELECTOR_PANIC").is_ok() {
+            out.oracle_fail("selector-index-panic-stale-aggregates", "TxSelector::txs_to_commit panicked inside its modified_entries multi-index map (tx_selector.rs:11, remove_by_id: Internal invariants broken); the rest of the case is not judged");
+        }
+        return;
+    }
+    if POOL_MAP_PANIC.load(std::sync::atomic::Ordering::SeqCst) && !w.panic_reported {
+        w.panic_reported = true;
+        out.count("pool-map-invalid-key-panic-seen");
+        out.oracle_fail("pool-map-invalid-key-panic", "a tx-pool service task of the real code panicked with `invalid key` inside PoolMap's multi-index map (tx-pool/src/component/pool_map.rs): requests are answered with a closed channel / the block assembler stops updating; the rest of the case is not judged");
+    }
+}
+
 // ------------------------------------------------------------------------------------------------
 // pool node (Node::start with a configurable block-assembler interval)
 // ------------------------------------------------------------------------------------------------
@@ -201,6 +262,8 @@ struct World {
     bid: HashMap<Byte32, usize>,
     /// snapshots of the main node's earlier tips (for `step 0 <back>`: update_blank on an OLDER tip)
     snaps: Vec<Arc<ckb_snapshot::Snapshot>>,
+    /// the pool-map panic of this case has been reported
+    panic_reported: bool,
 }
 
 fn cap_of(tx: &TransactionView, i: usize) -> u64 {
@@ -210,6 +273,9 @@ fn cap_of(tx: &TransactionView, i: usize) -> u64 {
 
 impl World {
     fn new(base: &Path, case: u64, cfg: Cfg) -> World {
+        // a fresh node: the pool-map panic of an earlier case (if any) is history
+        POOL_MAP_PANIC.store(false, std::sync::atomic::Ordering::SeqCst);
+        SELECTOR_PANIC.store(false, std::sync::atomic::Ordering::SeqCst);
         let dir = base.join(format!("case-{case}"));
         let _ = std::fs::remove_dir_all(&dir);
         std::fs::create_dir_all(&dir).unwrap();
@@ -225,7 +291,7 @@ impl World {
         let copies = (0..3).map(|i| Copy { node: Node::start(&dir.join(format!("copy-{i}")), consensus.clone(), &ncfg), cursor: 0 }).collect();
         let builder = ChainBuilder::new(consensus.clone(), &dir.join("builder"));
         let gcells = genesis_cells(&consensus);
-        World { dir, cfg, consensus, main, copies, log: vec![], builder, txs: vec![], tid_by_short: HashMap::new(), tid_by_hash: HashMap::new(), gcells, salt: 1000, stale_op: None, op_no: 0, bid: HashMap::new(), snaps: vec![] }
+        World { dir, cfg, consensus, main, copies, log: vec![], builder, txs: vec![], tid_by_short: HashMap::new(), tid_by_hash: HashMap::new(), gcells, salt: 1000, stale_op: None, op_no: 0, bid: HashMap::new(), snaps: vec![], panic_reported: false }
     }
 
     fn finish(self) {
@@ -257,6 +323,9 @@ impl World {
                 if info.tip_hash == tip {
                     break;
                 }
+            }
+            if pool_map_panicked() {
+                break;
             }
             if t.elapsed() > Duration::from_secs(20) {
                 out.count("sync-timeout");
@@ -554,6 +623,12 @@ fn do_select(w: &mut World, out: &mut Out, sl: u64, cl: u64) {
     });
     let r = match res {
         Ok(r) => r,
+        Err(_) if pool_map_panicked() => {
+            // the probe itself (dump / calc_ancestors / the real selector) hit the PoolMap panic
+            report_pool_map_panic(w, out);
+            out.count("select-hit-pool-map-invalid-key-panic");
+            return;
+        }
         Err(e) => panic!("verif_read failed: {e}"),
     };
     let pos: HashMap<ProposalShortId, usize> = r.sel.iter().enumerate().map(|(i, (id, _, _))| (id.clone(), i)).collect();
@@ -857,6 +932,11 @@ fn do_astep(w: &mut World, out: &mut Out, kind: u8, back: usize) {
         });
         match res {
             Ok(r) => Some(r),
+            Err(_) if pool_map_panicked() => {
+                report_pool_map_panic(w, out);
+                out.count("step-hit-pool-map-invalid-key-panic");
+                return;
+            }
             Err(e) => panic!("verif_read failed: {e}"),
         }
     } else {
@@ -866,10 +946,19 @@ fn do_astep(w: &mut World, out: &mut Out, kind: u8, back: usize) {
     let r = match w.tpc().verif_assembler_step(kind, snap_arg) {
         Ok(Some(r)) => r,
         _ => {
+            if pool_map_panicked() {
+                report_pool_map_panic(w, out);
+            }
             out.count("astep-error");
             return;
         }
     };
+    if pool_map_panicked() {
+        // the update path (or the hook's own selector re-run) panicked inside PoolMap: nothing to compare
+        report_pool_map_panic(w, out);
+        out.count("step-hit-pool-map-invalid-key-panic");
+        return;
+    }
     out.count(&format!("astep-kind-{kind}"));
     if r.after.work_id > r.before.work_id + 1 {
         // another update ran in between (never seen after settling); nothing to compare
@@ -1230,6 +1319,16 @@ fn exec(w: &mut Option<World>, out: &mut Out, base: &Path, line: &str) {
         }
         _ => {
             let w = w.as_mut().expect("cfg first");
+            if pool_map_panicked() {
+                // the real PoolMap is corrupted and the service (partly) dead: the panic is the reported event
+                // (once per case), the remaining ops of the case are counted and not executed
+                report_pool_map_panic(w, out);
+                out.count("op-after-pool-map-invalid-key-panic-not-judged");
+                if ts[0] != "select" && ts[0] != "select-stale" {
+                    out.op(line, "ok");
+                }
+                return;
+            }
             // `step` ops do not age the stale-aggregates window (it is counted in scenario events)
             if ts[0] != "step" {
                 w.op_no += 1;
@@ -1393,6 +1492,10 @@ fn exec(w: &mut Option<World>, out: &mut Out, base: &Path, line: &str) {
                     do_astep(w, out, n[0] as u8, n[1] as usize);
                 }
                 other => panic!("bad op {other}"),
+            }
+            if pool_map_panicked() {
+                report_pool_map_panic(w, out);
+                return;
             }
             emit_tsize(w, out);
         }
@@ -2030,6 +2133,7 @@ pub fn run(opts: &Opts) {
     let base = scratch_dir(&opts.out, "c13");
     let mut out = Out::new(&opts.out);
     let mut rng = Rng::new(opts.seed ^ 0xC13);
+    install_panic_watch();
     if let Some(p) = &opts.replay {
         let ops = read_replay_ops(p);
         let mut w: Option<World> = None;
